@@ -19,7 +19,8 @@ NEEDS_MODEL = True
 LEVEL = "exploration"
 N = {"quick": 480, "thorough": 15000}         # specs
 CLASSES = ["plain", "shape", "occupancy", "flatten", "affine", "cascade", "spacetime", "metrics",
-           "occupancy2", "metrics", "occupancy", "double-flatten", "affine2d", "reread"]
+           "occupancy2", "metrics", "occupancy", "double-flatten", "affine2d", "reread",
+           "flatten-lookup"]
 ORDERS = {"quick": 4, "thorough": 8}           # random tie-breaks per spec (+1 real sort)
 TECHNIQUE = ("runtime monitoring: recording wrapper on the FlowGraph the translator uses + seeded "
              "random topological tie-breaks (schedule perturbation); offline order checker over "
@@ -32,7 +33,7 @@ def classify(spec, problems):
     k = kf.classify_plain(spec, probs) or _kf_static(spec, probs) or mcommon.kf6(spec, probs)
     if k:
         return k
-    if any(t in spec.tags for t in ("S1", "S2", "S3", "S4", "S5", "S6", "S8")):
+    if any(t in spec.tags for t in ("S1", "S2", "S3", "S4", "S5", "S6", "S8", "S9", "S10")):
         return c04.classify(spec, probs)
     return None
 
@@ -168,7 +169,8 @@ def finalize(results, counters, tier, seed):
     # only strata whose count is fixed by construction or large for every seed
     miss = [t for t in ("occ-with-follower", "flatten-occupancy", "double-flatten",
                         "m-merger-static", "m-merger-dynamic", "m-partitioned", "st-coord",
-                        "partitioned", "cascade2", "both-dims-partitioned", "reread-input")
+                        "partitioned", "cascade2", "both-dims-partitioned", "reread-input",
+                        "flatten-lookup")
             if counters.get("strata_compiled", {}).get(t, 0) == 0]
     if miss:
         inc.append("graph shapes never compiled and executed: %r" % miss)
